@@ -318,6 +318,20 @@ func init() {
 		// Go's RE2 is linear and cannot panic; on symbolic input the verdict is arbitrary
 		return in.nondetVar("regexp match", BoolSort)
 	}
+	intrinsics["regexp.MatchString"] = func(in *Interp, fr *frame, fn *ssa.Function, a []Value) Value {
+		pat, ok := in.goString(a[0])
+		if !ok {
+			in.unsupported("regexp.MatchString on symbolic pattern")
+		}
+		re, err := regexp.Compile(pat)
+		if err != nil {
+			return Tuple{in.tt.False, in.makeError("regexp: " + err.Error())}
+		}
+		if s, conc := in.goString(a[1]); conc {
+			return Tuple{in.tt.Bool(re.MatchString(s)), Iface{}}
+		}
+		return Tuple{in.nondetVar("regexp match", BoolSort), Iface{}}
+	}
 	intrinsics["(*regexp.Regexp).MatchString"] = match
 	intrinsics["(*regexp.Regexp).Match"] = match
 }
